@@ -29,7 +29,11 @@ RULE = ('references: trees of 1-3 levels with 2-7 leaves (single-child '
         'cluster-specific on/off genes with Poisson noise (separable); '
         'encodings dense/csr; bootstrap factors 2/n..1, 1-10 iterations, '
         'several seeds, query gene order independent of the reference, 0-2 '
-        'genes dropped, 0-2 foreign genes added. non-trivial = some '
+        'genes dropped, 0-2 foreign genes added; node names reused across '
+        'levels in different lineages (a child named like a later-sorted node '
+        'of the parent level, or of a level further up); 300-600 non-reference '
+        'gene columns prepended / interleaved so that markers sit beyond query '
+        'column 255 (thorough: one query beyond 65535). non-trivial = some '
         '(centroid, node) with a real choice where the guard holds; distinct '
         'by canonical JSON of the case')
 TRUSTED = ['"correlation 1" is checked to 1e-9; "perfectly correlated" in '
@@ -43,11 +47,37 @@ ASSUMPTIONS = ['clusters are separable enough for the marker finder to '
 SIG = 'C18'
 
 
-def gen_case(rng, i):
+def gen_case(rng, i, big_query=0):
     depth = 1 + i % 3
     tree = ep.gen_tree(rng, depth, max_leaves=7,
                        single_top=(depth > 1 and rng.random() < 0.15),
                        chain_prob=0.25, share_names=(i % 2 == 0))
+    collide = None
+    h0 = tree['hierarchy']
+    if depth >= 2 and i % 2 == 0:
+        # reuse a node name across levels in DIFFERENT lineages: a child of
+        # parent p1 takes the name of another, later-sorted node p2 of the
+        # parent level (adjacent levels), or of a level further up
+        ks = [k for k in range(depth - 1) if len(tree[h0[k]]) >= 2]
+        if ks:
+            k = rng.choice(ks)
+            parents = sorted(tree[h0[k]])
+            p1 = rng.choice(parents[:-1])
+            p2 = rng.choice([q for q in parents if q > p1])
+            tgt = k + 1 if (depth == 2 or rng.random() < 0.7) else depth - 1
+            # a node of level `tgt` below p1
+            below = [p1]
+            for kk in range(k, tgt):
+                below = [c for q in below for c in tree[h0[kk]][q]]
+            if below and p2 not in tree[h0[tgt]]:
+                old = rng.choice(below)
+                lv = h0[tgt]
+                tree[lv] = {(p2 if n == old else n): v
+                            for n, v in tree[lv].items()}
+                up = h0[tgt - 1]
+                tree[up] = {n: [(p2 if c == old else c) for c in v]
+                            for n, v in tree[up].items()}
+                collide = [h0[k], p1, p2, lv]
     tv = eu.TreeView(tree)
     n_genes = rng.randint(16, 30)
     genes = ['g%d' % k for k in range(n_genes)]
@@ -71,6 +101,29 @@ def gen_case(rng, i):
     qgenes = qgenes[rng.randint(0, 2):] + [
         'foreign%d' % k for k in range(rng.randint(0, 2))]
     rng.shuffle(qgenes)
+    wide = None
+    if big_query or i % 3 == 0:
+        # many non-reference gene columns in FRONT of / among the markers:
+        # query column indexes beyond 255 (65535) while the reference has
+        # <= 255 genes
+        n_extra = big_query if big_query else rng.randint(300, 600)
+        extra = ['zz_extra%d' % k for k in range(n_extra)]
+        if big_query or rng.random() < 0.5:
+            qgenes = extra + qgenes
+            wide = 'prepended'
+        else:
+            pos = sorted(rng.randrange(len(qgenes) + 1) for _ in extra)
+            out = []
+            j = 0
+            for k, g in enumerate(qgenes + [None]):
+                while j < len(pos) and pos[j] == k:
+                    out.append(extra[j])
+                    j += 1
+                if g is not None:
+                    out.append(g)
+            # most markers end up beyond column 255 when the extras lead
+            qgenes = extra[:260] + [g for g in out if g not in extra[:260]]
+            wide = 'interleaved'
     runs = []
     for _ in range(2 if i % 2 else 3):
         u = rng.random()
@@ -86,6 +139,7 @@ def gen_case(rng, i):
             'drop_level': None, 'encoding': 'dense'})
     return {'kind': 'chain', 'tree': tree, 'genes': genes, 'X': X,
             'labels': labels, 'query_genes': qgenes, 'runs': runs,
+            'collide': collide, 'wide_query': wide,
             'ref_encoding': rng.choice(['dense', 'csr']),
             'n_per_utility': rng.randint(2, 6),
             'rows_at_a_time': rng.randint(3, 40)}
@@ -104,6 +158,10 @@ def check_case(ctx, case):
     tv = eu.TreeView(tree)
     h = tree['hierarchy']
     genes = case['genes']
+    if case.get('collide'):
+        ctx.count('chain:name-reused-across-levels')
+    if case.get('wide_query'):
+        ctx.count('chain:wide-query-' + case['wide_query'])
 
     def violation(cls, what, found=True, **extra):
         d = dict(case)
@@ -350,6 +408,9 @@ def run(ctx):
     n = 11 if ctx.tier == 'quick' else 200
     for i in range(n):
         check_case(ctx, gen_case(rng, i))
+    if ctx.tier != 'quick':
+        # one query with more than 65535 gene columns in front of the markers
+        check_case(ctx, gen_case(rng, 1, big_query=66000))
     if not ctx.extra_cov.get('guard_true_cases') and not ctx.violations:
         ctx.violation(SIG + '/vacuous', 'no (centroid, node) with the guard '
                       'true was generated: the check is vacuous', {},
